@@ -1,0 +1,15 @@
+// SPDX-FileCopyrightText: (C) 2024 Intel Corporation
+// SPDX-License-Identifier: Apache 2.0
+
+//go:build verif
+
+package sqlite
+
+import "context"
+
+// VerifSessionID exposes sessionID: the session a token names, if the token is
+// one this database issued.
+func (db *DB) VerifSessionID(ctx context.Context) ([]byte, bool) { return db.sessionID(ctx) }
+
+// VerifSecret exposes the token HMAC secret of the database.
+func (db *DB) VerifSecret(ctx context.Context) ([]byte, error) { return db.loadOrStoreSecret(ctx) }
